@@ -220,6 +220,8 @@ def check_property(spec: PropertySpec, tier="quick", seed=0, src_root="/repo/src
                 recipe=recipe, clause=res.clause, detail=res.detail))
             violations.append((target + "/runtime-contract", path, True))
     for sd in spec.standins:
+        if isinstance(sd, str):
+            sd = getattr(E, "standins", {}).get(sd) or next(v for v in vars(E).values() if isinstance(v, Standin) and v.name == sd)
         try:
             sr = sd.run(tier, rng, src_root)
         except Exception:
@@ -342,6 +344,8 @@ def replay(path, specs, src_root="/repo/src"):
         return EXIT_VIOLATION if res.status == "violation" else EXIT_OK
     if data.get("kind") == "standin-input":
         for sd in spec.standins:
+            if isinstance(sd, str):
+                sd = next(v for v in vars(E).values() if isinstance(v, Standin) and v.name == sd)
             if sd.name == data["target"] and getattr(sd, "replay", None):
                 what = sd.replay(data["recipe"], src_root)
                 print(f"replay {path}: {'violation: ' + what if what else 'ok'}")
